@@ -192,35 +192,39 @@ class BodyMixin:
         forms = env['ombott.request.forms'] = self._forms_factory()
 
         body = self.body
-        markup: MultipartMarkup = body.ombott_markup
-        if markup is None:
-            # should never happen since we check content-type
-            # when reading body
-            raise BodyParsingError()
-        elif markup.error is not None:
-            raise markup.error
+        try:
+            markup: MultipartMarkup = body.ombott_markup
+            if markup is None:
+                # should never happen since we check content-type
+                # when reading body
+                raise BodyParsingError()
+            elif markup.error is not None:
+                raise markup.error
 
-        def put(dct, listified, key, it):
-            if key not in dct:
-                dct[key] = it
-            elif key in listified:
-                dct[key].append(it)
-            else:
-                dct[key] = [dct[key], it]
-                listified.add(key)
+            def put(dct, listified, key, it):
+                if key not in dct:
+                    dct[key] = it
+                elif key in listified:
+                    dct[key].append(it)
+                else:
+                    dct[key] = [dct[key], it]
+                    listified.add(key)
 
-        post_lists, forms_lists, files_lists = set(), set(), set()
-        for item in FieldStorage.iter_items(body, markup.markups, self.config.max_memfile_size):
-            if item.filename:
-                it = FileUpload(
-                    item.file, item.name,
-                    item.filename, item.headers
-                )
-                put(files, files_lists, item.name, it)
-            else:
-                it = item.value
-                put(forms, forms_lists, item.name, it)
-            put(post, post_lists, item.name, it)
+            post_lists, forms_lists, files_lists = set(), set(), set()
+            for item in FieldStorage.iter_items(body, markup.markups, self.config.max_memfile_size):
+                if item.filename:
+                    it = FileUpload(
+                        item.file, item.name,
+                        item.filename, item.headers
+                    )
+                    put(files, files_lists, item.name, it)
+                else:
+                    it = item.value
+                    put(forms, forms_lists, item.name, it)
+                put(post, post_lists, item.name, it)
+        except RequestError as err:
+            # malformed multipart body -> the configured client error
+            self._raise(err, RequestError)
         return post
 
     @cache_in('environ[ ombott.request.forms ]', read_only=True)
